@@ -154,7 +154,8 @@ def _pyeq(a, b):
     return type(a) is type(b) and a == b
 
 
-OBJ_DEFAULTS = {'PObj': {'b': 'x'}, 'PDef': {'c': 1, 'd': None}, 'PSet': {}}
+OBJ_DEFAULTS = {'PObj': {'b': 'x'}, 'PSub': {}, 'PDef': {'c': 1, 'd': None}, 'PSet': {}}
+OBJ_IGNORED = {'PSub': ('b',)}
 
 
 def canon_param(v):
@@ -165,7 +166,7 @@ def canon_param(v):
         cname = v['class'].split('.')[-1]
         kw = dict(OBJ_DEFAULTS.get(cname, {}))
         kw.update(v.get('kwargs') or {})
-        kw = {k: canon_param(x) for k, x in kw.items() if k not in ('verbose', 'debug')}
+        kw = {k: canon_param(x) for k, x in kw.items() if k not in ('verbose', 'debug') and k not in OBJ_IGNORED.get(cname, ())}
         if cname == 'PSet':
             kw = {k: (sorted(x, key=repr) if isinstance(x, list) else x) for k, x in kw.items()}
         return {'$obj': [cname, kw]}
